@@ -2,6 +2,8 @@
 `s3_basic_facade.boto3`).  Key-ordered listing like S3, tz-aware last_modified taken from the
 fake clock, a mutation log, optional crash injection after the n-th mutation."""
 import datetime
+import threading
+import time
 import types
 
 import pytz
@@ -94,8 +96,30 @@ class Store(object):
         self.reads = []
         self.lists = []
         self.crash_after = None   # raise InjectedCrash instead of performing mutation number crash_after (0-based)
+        self.offthread_arrivals = 0
+        self.inflight = 0
+        self._arrival_lock = threading.Lock()
 
     def mutate(self, entry):
+        # Adversarial ordering of CONCURRENT mutations: S3 gives no order to requests in flight at the same time, so
+        # mutations issued from helper threads (never the case on the unchanged tree) land in REVERSE order of issue.
+        if threading.current_thread() is not threading.main_thread():
+            with self._arrival_lock:
+                if self.inflight == 0:
+                    self.offthread_arrivals = 0         # a new burst of concurrent requests
+                k = self.offthread_arrivals
+                self.offthread_arrivals += 1
+                self.inflight += 1
+            try:
+                time.sleep(max(0.0, 0.09 - 0.03 * k))
+                with self._arrival_lock:
+                    return self._mutate(entry)
+            finally:
+                with self._arrival_lock:
+                    self.inflight -= 1
+        return self._mutate(entry)
+
+    def _mutate(self, entry):
         if self.crash_after is not None and len(self.log) >= self.crash_after:
             raise InjectedCrash(repr(entry))
         self.log.append(entry)
